@@ -12,24 +12,28 @@ MINORS = [0, 1, None]
 
 def gen_history(rng):
     ops = []
+    # one history in four lives in a universe with multi-digit minors whose
+    # names are prefixes of one another (x.1 / x.10 / x.12)
+    minors = [1, 10, 12, None] if rng.random() < 0.25 else MINORS
+    ys = [m for m in minors if m is not None]
     for i in range(rng.randint(2, 10)):
         r = rng.random()
         x = rng.choice(MAJORS)
-        y = rng.choice(MINORS)
+        y = rng.choice(minors)
         if r < 0.30:
             ops.append({'op': 'dev', 'x': x, 'y': y})
         elif r < 0.45:
-            ops.append({'op': 'stab', 'x': x, 'y': rng.choice([0, 1]),
+            ops.append({'op': 'stab', 'x': x, 'y': rng.choice(ys),
                         'mode': rng.choice(['next', 'next', 'next', 'any'])})
         elif r < 0.65:
-            ops.append({'op': 'tag', 'x': x, 'y': rng.choice([0, 1]),
+            ops.append({'op': 'tag', 'x': x, 'y': rng.choice(ys),
                         'z': rng.choice([None, None, 0, 1, 2, 5]),
                         'form': rng.choice(['%s', '%s', 'v%s', '%s-rc1',
                                             '%s_hf2', '%s.0', '%s.1'])})
         elif r < 0.72:
-            ops.append({'op': 'drop_stab', 'x': x, 'y': rng.choice([0, 1])})
+            ops.append({'op': 'drop_stab', 'x': x, 'y': rng.choice(ys)})
         elif r < 0.84:
-            ops.append({'op': 'hotfix', 'x': x, 'y': rng.choice([0, 1]),
+            ops.append({'op': 'hotfix', 'x': x, 'y': rng.choice(ys),
                         'z': rng.choice([0, 1, 3]),
                         'tag': rng.choice([None, '', '.0', '.0', '.2'])})
         elif r < 0.92:
